@@ -26,7 +26,7 @@ func scratchBase() string {
 }
 
 // pairs decodes [[a,b],...] ; b may be null (returned as ok=false)
-func pairs(v any) [][2]*string {
+func hashPairs(v any) [][2]*string {
 	arr, _ := v.([]any)
 	out := make([][2]*string, 0, len(arr))
 	for _, x := range arr {
@@ -63,7 +63,7 @@ func init() {
 		if err := os.MkdirAll(pkgDir, 0o755); err != nil {
 			return nil, err
 		}
-		for _, f := range pairs(req["files"]) {
+		for _, f := range hashPairs(req["files"]) {
 			if f[1] == nil {
 				continue
 			}
@@ -90,11 +90,11 @@ func init() {
 			config.Global.OS, config.Global.Arch = p[:i], p[i+1:]
 		}
 		var outs []model.Output
-		for _, o := range pairs(req["outputs"]) {
+		for _, o := range hashPairs(req["outputs"]) {
 			outs = append(outs, model.NewOutput(*o[0], *o[1]))
 		}
 		fp := map[string]string{}
-		for _, kv := range pairs(req["fingerprint"]) {
+		for _, kv := range hashPairs(req["fingerprint"]) {
 			fp[*kv[0]] = *kv[1]
 		}
 		var fpm map[string]string
